@@ -30,4 +30,4 @@ Separate Extraction
   MutualDial.all_labels MutualDial.survivor MutualDial.converged
   Dialer.check Dialer.b_update Dialer.backoff_duration Dialer.first_tick_after
   NetModel.step NetModel.run NetModel.lists NetModel.admission NetModel.adversarial_hello_accepted NetModel.dial_outcome
-  Tls.accept_remote Tls.accept_client Tls.honest_cert Tls.honest_proof Tls.verify_cert.
+  Tls.accept_remote Tls.accept_client Tls.honest_cert Tls.honest_proof Tls.verify_cert Tls.verify_cert_pinned Tls.verify_hs Tls.peer_id.
